@@ -384,7 +384,30 @@ fn osc() -> BoxedStrategy<Tok> {
         });
     let link_close = Just(b"8;;".to_vec());
     let other = vec(any::<u8>().prop_filter("no esc", |b| *b != 0x1B), 0..=10);
-    prop_oneof![6 => pal, 6 => link_open, 6 => link_close, 2 => other, 1 => link_long]
+    // the string is a list of ';'-separated fields: any command number, 0..=4 fields, each field a short run over one byte alphabet
+    // (ASCII, high bytes - two bytes each once stored in a String -, key=value pairs, digits, empty); offsets computed in characters
+    // and used as byte offsets (or the reverse) only fail when high bytes sit in an EARLIER field
+    let field = prop_oneof![
+        2 => Just(Vec::new()),
+        3 => vec(0x21u8..=0x7E, 1..=8).prop_map(|v| v.into_iter().filter(|b| *b != b';').collect::<Vec<u8>>()),
+        4 => vec(0x80u8..=0xFF, 1..=5),
+        2 => (vec(0x61u8..=0x7A, 1..=3), vec(prop_oneof![1 => 0x30u8..=0x7A, 1 => 0x80u8..=0xFF], 0..=4)).prop_map(|(k, v)| {
+            let mut o = k;
+            o.push(b'=');
+            o.extend(v.into_iter().filter(|b| *b != b';'));
+            o
+        }),
+        1 => vec(0x30u8..=0x39, 1..=10),
+    ];
+    let fields = (prop_oneof![4 => Just(8u32), 1 => Just(4), 1 => Just(0), 1 => Just(2), 1 => 0u32..=120], vec(field, 0..=4)).prop_map(|(cmd, fs)| {
+        let mut v = cmd.to_string().into_bytes();
+        for f in fs {
+            v.push(b';');
+            v.extend(f);
+        }
+        v
+    });
+    prop_oneof![6 => pal, 6 => link_open, 6 => link_close, 2 => other, 1 => link_long, 6 => fields]
         .prop_map(|p| {
             let mut v = vec![0x1B, b']'];
             v.extend(p);
@@ -392,6 +415,25 @@ fn osc() -> BoxedStrategy<Tok> {
             vec![Piece::Lit(v)]
         })
         .boxed()
+}
+
+/// a chain of `n` distinct macros, macro k invoking macro k+1 (hex-encoded definitions; `in_dcs`: the invocation sits inside a DCS
+/// string, the second way the parser expands macros), followed by the invocation of the first one
+pub fn macro_chain(n: u32, base: u32, in_dcs: bool) -> Vec<u8> {
+    let mut v = Vec::new();
+    for k in 0..n {
+        let next = format!("\x1b[{}*z", base + k + 1);
+        let body: Vec<u8> = if in_dcs { [b"\x1b\\\x1bP".as_slice(), next.as_bytes()].concat() } else { next.into_bytes() };
+        v.extend_from_slice(format!("\x1bP{};0;1!z", base + k).as_bytes());
+        for b in body {
+            v.extend_from_slice(format!("{b:02X}").as_bytes());
+        }
+        v.extend_from_slice(b"\x1b\\");
+    }
+    // the last macro prints something
+    v.extend_from_slice(format!("\x1bP{};0;0!zend\x1b\\", base + n).as_bytes());
+    v.extend_from_slice(format!("\x1b[{base}*z").as_bytes());
+    v
 }
 
 fn music() -> BoxedStrategy<Tok> {
